@@ -214,16 +214,20 @@ func (a *SparseInt16Matrix) Set(b ConstMatrix) {
     i, j := it.Index()
     it.Get().Set(b.ConstAt(i, j))
   }
+  // copy entries of b for which a has no entry yet
+  for it := b.ConstIterator(); it.Ok(); it.Next() {
+    i, j := it.Index()
+    a.At(i, j).Set(it.GetConst())
+  }
 }
 func (matrix *SparseInt16Matrix) SetIdentity() {
+  n, m := matrix.Dims()
   c := NewScalar(matrix.ElementType(), 1.0)
   for it := matrix.Iterator(); it.Ok(); it.Next() {
-    i, j := it.Index()
-    if i == j {
-      it.Get().Set(c)
-    } else {
-      it.Get().Reset()
-    }
+    it.Get().Reset()
+  }
+  for i := 0; i < n && i < m; i++ {
+    matrix.At(i, i).Set(c)
   }
 }
 func (matrix *SparseInt16Matrix) Reset() {
